@@ -199,7 +199,7 @@ def run_one(src):
     finally:
         signal.alarm(0)
         active[0] = False
-    rec["calls"] = [c for c in calls][:400]
+    rec["calls"] = [c for c in calls][:6000]      # (a cap of 400 once hid the enrichments of long lines: a false alarm of the harness)
     rec["execs"] = list(execs)
     return rec
 
